@@ -80,7 +80,7 @@ structure State (α : Type) where
   full : Bool := false
 
 /-- `NewHashTrieWriter`: eight empty levels -/
-def State.new : State α := { levels := List.replicate 8 [] }
+def State.new : State α := { levels := List.replicate maxLevel [] }
 
 inductive Err | trieFull | inconsistent
 deriving Repr, DecidableEq
